@@ -58,7 +58,8 @@ AXES = {"pre": ["nothing", "xyz", "centres", "areas", "edges", "bounds", "all"],
         "api": ["to_xarray", "encode_as"],
         # where the source keeps its node positions: lon/lat only, or lon/lat plus Cartesian node_x/y/z on the unit sphere or on a
         # sphere of radius 6371.22 (MPAS / ESMF style, kilometres)
-        "source": ["lonlat", "xyz_unit", "xyz_km"]}
+        # "constructor": the bare constructor ux.Grid(dataset) on a dataset in the internal naming (no source_grid_spec)
+        "source": ["lonlat", "xyz_unit", "xyz_km", "constructor"]}
 _ENCODE_AS = {"ugrid": "UGRID", "exodus": "Exodus", "scrip": "SCRIP"}
 
 
@@ -115,6 +116,16 @@ def _source_grid(mesh, source):
     if source == "lonlat":
         return grid_of(mesh)
     import xarray as xr
+    if source == "constructor":
+        import warnings
+        ds0 = xr.Dataset()
+        ds0["node_lon"] = xr.DataArray(np.array(mesh["lon"], float), dims=["n_node"])
+        ds0["node_lat"] = xr.DataArray(np.array(mesh["lat"], float), dims=["n_node"])
+        ds0["face_node_connectivity"] = xr.DataArray(np.array(mesh["faces"], dtype=np.int64), dims=["n_face", "n_max_face_nodes"],
+                                                     attrs={"cf_role": "face_node_connectivity", "start_index": 0, "_FillValue": FILL})
+        with warnings.catch_warnings():
+            warnings.simplefilter("ignore")
+            return ux.Grid(ds0)
     radius = 1.0 if source == "xyz_unit" else 6371.22
     lon, lat = np.array(mesh["lon"], float), np.array(mesh["lat"], float)
     lo, la = np.deg2rad(lon), np.deg2rad(lat)
